@@ -87,6 +87,8 @@ func c20HtVersions(bcryptAlice ...bool) (versions []*c20Version, queries []strin
 		// parses as CSV but the last entry is neither SHA nor bcrypt: rejected after the new
 		// table has been partly built
 		mk("bad-entry", map[string]string{"alice": "pwX", "carol": "pw3"}, "zed:plaintext\n", false),
+		// a file without a single entry is refused by the htpasswd loader (previous contents stay)
+		mk("emptied", map[string]string{}, "# nobody\n", false),
 	}
 	return
 }
@@ -195,6 +197,8 @@ func c20EmVersions() (versions []*c20Version, queries []string) {
 		mk("changed", []string{"a2@x.org", "b@x.org"}, "", true),
 		mk("malformed", []string{"c@x.org", "a2@x.org"}, "x\"y@x.org\n", false),
 		mk("bad-entry", []string{"a2@x.org"}, "\"unterminated\n", false),
+		// an emptied allow-list is a valid version: nobody is allowed any more
+		{Name: "emptied", Content: "# nobody\n", OK: true, Table: map[string]bool{}},
 	}
 	return
 }
@@ -446,7 +450,7 @@ func c20Scenarios(quick bool, queries map[string][]string) []c20Scenario {
 			if len(cur) == L {
 				return
 			}
-			for v := 1; v <= 5; v++ {
+			for v := 1; v <= 6; v++ {
 				rec(append(cur, v))
 			}
 		}
